@@ -11,6 +11,9 @@ RuSet == 0..(R + 1)
 MvSets(P) == CarrySets(P)
 Subsets == SUBSET Key
 
+AbsOf(P) == P.M \cup P.O
+Good(P) == P.err = "none"
+
 MCInit == \E c \in InitCaps : InitWith(c)
 
 InsertNew(k, v, mv, ru) == InsertNew_En(k, v, mv, ru) /\ Apply(InsertNew_Post(k, v, mv, ru))
@@ -40,7 +43,35 @@ Next ==
     \/ \E n \in ResArgs, ru \in 0..1 : Reserve(n, ru)
     \/ \E m \in ShrArgs : ShrinkTo(m)
 
+\* C07: the same exploration with calls that may be interrupted by a panicking Hash
+FaultNext ==
+    \/ \E k \in Key \ AllK, v \in Val :
+          \E dv \in (IF mG = 0 THEN (IF ~oP /\ M # {} /\ GrowB(mI, 1) # HB!Overflow THEN CarryFaultSets(Grown(St, 1)) ELSE {})
+                      ELSE (IF oP THEN CarryFaultSets(St) ELSE {})) :
+             F_InsertNew_En(k, v, dv[1], dv[2]) /\ Apply(F_InsertNew_Post(k, v, dv[1], dv[2]))
+    \/ \E k \in KeysOf(O), v \in Val : \E dv \in CarryFaultSets(St) :
+          F_OverwriteOld_En(k, v, dv[1], dv[2]) /\ Apply(F_OverwriteOld_Post(k, v, dv[1], dv[2]))
+    \/ \E n \in ResArgs : \E done \in SUBSET cur : \E victim \in cur \ done :
+          F_Reserve_En(n, done, victim) /\ Apply(F_Reserve_Post(done, victim))
 MCSpec == MCInit /\ [][Next]_vars
+MCFaultSpec == MCInit /\ [][Next \/ FaultNext]_vars
+
+\* C07 loss bound: an interrupted key-adding call loses exactly the element being relocated
+\* (and nothing else); everything it did complete is as the reference says
+FaultLossBound ==
+    Ok =>
+    /\ \A k \in Key \ AllK, v \in Val :
+         \A dv \in (IF mG = 0 THEN (IF ~oP /\ M # {} /\ GrowB(mI, 1) # HB!Overflow THEN CarryFaultSets(Grown(St, 1)) ELSE {})
+                     ELSE (IF oP THEN CarryFaultSets(St) ELSE {})) :
+            F_InsertNew_En(k, v, dv[1], dv[2]) =>
+                LET P == F_InsertNew_Post(k, v, dv[1], dv[2]) IN
+                Good(P) => AbsOf(P) = Drop(All, {dv[2]}) \cup {<<k, v>>}
+    /\ \A k \in KeysOf(O), v \in Val : \A dv \in CarryFaultSets(St) :
+            F_OverwriteOld_En(k, v, dv[1], dv[2]) =>
+                LET P == F_OverwriteOld_Post(k, v, dv[1], dv[2]) IN
+                Good(P) => AbsOf(P) = Drop(Drop(All, {k}) \cup {<<k, v>>}, {dv[2]})
+    /\ \A n \in ResArgs : \A done \in SUBSET cur : \A victim \in cur \ done :
+            F_Reserve_En(n, done, victim) => AbsOf(F_Reserve_Post(done, victim)) = Drop(All, {victim})
 Bounded == mB <= MaxB /\ (oP => oB <= MaxB)
 
 (***************************************************************************)
@@ -48,8 +79,6 @@ Bounded == mB <= MaxB /\ (oP => oB <= MaxB)
 (* kv = M \cup O; every action changes kv exactly as the reference         *)
 (* operation does (per state, for all parameters).                         *)
 (***************************************************************************)
-AbsOf(P) == P.M \cup P.O
-Good(P) == P.err = "none"
 \* lookups search main then old (find): must equal the lookup in kv
 FindVal(k) == IF k \in KeysOf(M) THEN {ValAt(M, k)} ELSE IF k \in KeysOf(O) THEN {ValAt(O, k)} ELSE {}
 RefLookup(k) == {e[2] : e \in {x \in All : x[1] = k}}
